@@ -36,6 +36,53 @@ def cases(tier, seed):
     return out
 
 
+def special_cases(tier, seed):
+    """directed families at capacity 0 (every flush goes on the wire, every wait polls):
+    (a) a control-flow barrier in the MIDDLE of an epoch: ranks wait in cf_barrier() while messages whose handlers send are arriving
+        (eager, non-synchronous sends only: a rank blocked in MPI_Barrier services nothing — the D7 family is C03's finding);
+    (b) long-running handlers: hundreds of { async ; local_progress } inside ONE handler while peers keep sending to that rank;
+    (c) long masked sections: hundreds of asyncs under one interrupt_mask while peers keep sending to that rank."""
+    rng = T.Rng(seed * 7127 + 19)
+    out = []
+    uid = [1 << 23]
+
+    def fresh():
+        uid[0] += 1
+        return uid[0]
+    for rep in range(2 if tier == "quick" else 10):
+        for (N, P) in ((1, 3), (1, 4), (2, 2)):
+            n = N * P
+            # (a)
+            ops = []
+            for r in range(n):
+                ops += [(0, r, "async", fresh(), rng.below(n), rng.choice([8, 100]), 2) for _ in range(2 + rng.below(3))]
+            ops.append((0, -1, "cfbarrier"))
+            for r in range(n):
+                ops += [(0, r, "async", fresh(), rng.below(n), 8, 1) for _ in range(1 + rng.below(3))]
+            sc = T.Scenario(n, 1, {"maxfan": 2, "hprog": 30, "hcb": 0, "hbc": 0}, [8, 100], ops)
+            out.append((sc, T.Config(N, P, rng.choice(T.ROUTINGS), 0, irecvs=rng.choice([1, 8]), isends_wait=rng.choice([0, 4]), issend=0,
+                                     policy=rng.choice(T.POLICIES), eager=100, sim_seed=rng.below(1 << 30))))
+            # (b)
+            ops = []
+            for r in range(n):
+                ops += [(0, r, "async", fresh(), (r + 1 + rng.below(n - 1)) % n, 8, 1) for _ in range(3)]
+            sc = T.Scenario(n, 1, {"maxfan": 1, "hprog": 0, "hcb": 0, "hbc": 0, "hburst": 50, "hburstk": 270}, [8], ops)
+            out.append((sc, T.Config(N, P, rng.choice(T.ROUTINGS), 0, irecvs=rng.choice([1, 8]), isends_wait=rng.choice([0, 4]), issend=rng.choice([0, 8]),
+                                     policy=rng.choice(T.POLICIES), eager=rng.choice([50, 100]), sim_seed=rng.below(1 << 30))))
+            # (c)
+            ops = []
+            m = rng.below(n)
+            for r in range(n):
+                if r != m:
+                    ops += [(0, r, "async", fresh(), m, 8, 1) for _ in range(4)]
+            ops.append((0, m, "mask", 270))
+            ops += [(0, m, "async", fresh(), (m + 1 + rng.below(n - 1)) % n, 8, 0) for _ in range(270)]
+            sc = T.Scenario(n, 1, {"maxfan": 1, "hprog": 30, "hcb": 0, "hbc": 0}, [8], ops)
+            out.append((sc, T.Config(N, P, rng.choice(T.ROUTINGS), 0, irecvs=rng.choice([1, 8]), isends_wait=rng.choice([0, 4]), issend=rng.choice([0, 8]),
+                                     policy=rng.choice(T.POLICIES), eager=rng.choice([50, 100]), sim_seed=rng.below(1 << 30))))
+    return out
+
+
 def mapvisit_runs(res, tier, seed):
     """map visitor callbacks run under a mask: map_impl::local_visit called from the main program with a sending visitor"""
     binary, err = C.build_harness("mapmask")
@@ -99,13 +146,15 @@ def run(tier, seed, model_ok=True):
     res = C.Result()
     res.rule = ("[a quarter of the generated scenarios also run barriers of a SECOND ygm::comm living in the same process between the epochs; its events are removed from the judged history] " +
                 "seeded scenarios (message DAG with handler-side asyncs and local_progress, masked sections, callbacks) x layout x routing x capacity x "
-                "MPI config x scheduling policy; a case is non-trivial when handlers ran; distinct = (config, scenario shape)")
+                "MPI config x scheduling policy; directed families at capacity 0: cf_barrier in the middle of an epoch, 270 x {async; local_progress} inside one handler, "
+                "270 asyncs under one mask, each with peers sending to that rank; a case is non-trivial when handlers ran; distinct = (config, scenario shape)")
     res.assumptions = ["schedules sampled by seeded policies", "RAII, non-nested masks; no barrier under a mask"]
     binary, err = C.build_harness("traffic")
     if binary is None:
         res.corr_failures.append({"relation": "harness builds against /repo", "what": err[-800:], "case": None})
         return res
     K.run_cases(res, binary, cases(tier, seed), WANT, extra=extra if model_ok else None)
+    K.run_cases(res, binary, special_cases(tier, seed), WANT, extra=extra if model_ok else None)
     mapvisit_runs(res, tier, seed)
     if res.oracle_failures and "scenario" in (res.oracle_failures[0].get("case") or {}):
         res.oracle_failures[0] = K.shrink(binary, res.oracle_failures[0], WANT)
